@@ -153,6 +153,20 @@ def roles(rep, ex: Explorer):
         n += 1
         rep.check(ok, "CNF.roles", site2, "query CNFs", "query_to_cnf returns [CNF(A∧B), CNF(A∧¬B)] in this order", extracted=got, required="[Q.A∧Q.B, Q.A∧¬Q.B]", function=site2)
     rep.floor("CNF.roles query_to_cnf paths", n, 1)
+    # translating a query leaves the per-conditional CNFs of the base alone: they are keyed by the base's keys, and any key
+    # may be one of them
+    for p in paths:
+        slots_q = {}
+        for oid, o in p.state.heap.items():
+            if isinstance(o, HDict) and "v_cnf_dict" in o.entries:
+                for name in ("v_cnf_dict", "f_cnf_dict", "nf_cnf_dict"):
+                    r = o.entries.get(name)
+                    if isinstance(r, Ref):
+                        slots_q[r.oid] = name
+        for ev, Q in iter_events(p.events):
+            if ev.kind == "dict.set" and isinstance(ev.obj, Ref) and ev.obj.oid in slots_q:
+                rep.violation("CNF.roles", f"{site2}:{ev.node.lineno}", f"query stored in {slots_q[ev.obj.oid]}", "the CNFs of a query are handed back, not stored among those of the base (a conditional of the base may have that key)",
+                              extracted=f"{slots_q[ev.obj.oid]}[{ev.key!r}] assigned while translating a query", required="no store into the base's CNF dictionaries", function=site2)
     # CNF.pool: the id pool only grows - nothing rewinds or replaces it while the state lives (the optimizer's helper
     # variables are handed out lazily from the same pool; an id given out twice names two different things)
     for which, pp in (("belief_base_to_cnf", ex.run(qual, setup, summaries=summ, key="cnfroles")), ("query_to_cnf", paths)):
